@@ -385,6 +385,53 @@ def r5_point_data(repo: Repo, rep):
         rep.check(R, norm(got) == norm([X, Y, Z0, Z1]), fi.site(), fi.fq, f"data given in the order {order}: coordinates (x, y, z0, z1) of the space (x, y, z)", str(norm(got)), f"{order}: {norm(got)}")
 
 
+def r7_product_call(repo: Repo, rep):
+    R = rep.rule("R-C17-7", "ProductDomain.__call__ replaces a factor by a Point exactly when every variable of that factor is fixed by the data - for each factor on its own",
+                 floor=6, why="fixing both factors in one call must fix both; fixing a part of a factor's variables must leave the factor (partially evaluated) in place")
+    from collections import OrderedDict
+    from ..absdom.listeval import Evaluator, Opaque, UNKNOWN
+    ci = repo.cls(f"{DOM}.domainoperations.product.ProductDomain")
+    fi = ci.methods.get("__call__")
+    if fi is None:
+        raise AnalysisError("ProductDomain.__call__ vanished")
+    rep.saw(fi)
+    kw = fi.node.args.kwarg.arg if fi.node.args.kwarg else None
+    if kw is None:
+        rep.undecided(R, fi.site(), fi.fq, "__call__(**data)", "no ** parameter")
+        return
+    sa, sb = OrderedDict((("x", 1), ("y", 1))), OrderedDict((("t", 1),))
+
+    def on_call(e, name, args, kws, ev, f):
+        args = args or []
+        name = name.split(".")[-1] if isinstance(name, str) else name
+        if name == "Point":
+            return ("Point", tuple((kws.get("space") if "space" in kws else args[0] if args else {}).keys()))
+        if name == "ProductDomain":
+            a = kws.get("domain_a", args[0] if args else None)
+            b = kws.get("domain_b", args[1] if len(args) > 1 else None)
+            return ("Product", a, b)
+        if name == "_create_point_data":
+            return ["pd"]
+        if name in ("domain_a", "domain_b") and isinstance(e.func, ast.Attribute) and dump(e.func.value) == "self":
+            return ("Eval", name)
+        return None
+    for given in ((), ("t",), ("x",), ("x", "y"), ("y", "x", "t"), ("y", "t"), ("t", "x", "y")):
+        data = OrderedDict((k, 0.5) for k in given)
+        fr = Evaluator(None, on_call).run(fi.node.body, {"self": Opaque("self"), kw: data}, attrs={"self.domain_a.space": OrderedDict(sa), "self.domain_b.space": OrderedDict(sb)})
+        got = fr.ret
+        label = f"data fixes {list(given)}"
+        if not (isinstance(got, tuple) and len(got) == 3 and got[0] == "Product"):
+            rep.undecided(R, fi.site(), fi.fq, f"{label}: result evaluable", repr(got)[:80])
+            continue
+        kind = lambda v: "Point" if isinstance(v, tuple) and v and v[0] == "Point" else "Eval" if isinstance(v, tuple) and v and v[0] == "Eval" else repr(v)[:30]
+        want = ("Point" if set(sa) <= set(given) else "Eval", "Point" if set(sb) <= set(given) else "Eval")
+        have = (kind(got[1]), kind(got[2]))
+        rep.check(R, have == want, fi.site(), fi.fq, f"{label}: factors (x, y) x (t) become {want}", f"{have}", f"{label}: {have}")
+        for v, sp in ((got[1], sa), (got[2], sb)):
+            if isinstance(v, tuple) and v and v[0] == "Point":
+                rep.check(R, tuple(v[1]) == tuple(sp), fi.site(), fi.fq, f"{label}: the Point lives in its factor's space {tuple(sp)}", f"{v[1]}", f"{label}: point space {v[1]}")
+
+
 def r6_derived_functions(repo: Repo, rep):
     R = rep.rule("R-C17-6", "a shape function class that post-processes the wrapped value in __call__ (angle -> rotation matrix) re-wraps the partially evaluated function in its own class", floor=1,
                  why="the parent's partial evaluation returns the wrapped function's raw value once every argument is bound: the evaluated domain would receive an angle where it expects a matrix")
@@ -412,14 +459,16 @@ def r6_derived_functions(repo: Repo, rep):
 
 
 def run(repo: Repo, rep):
+    r7_product_call(repo, rep)
     r6_derived_functions(repo, rep)
     r5_point_data(repo, rep)
     r1_roundtrip(repo, rep)
     r2_setters(repo, rep)
     r3_necessary_variables(repo, rep)
     r4_call_pure(repo, rep)
-    from .c13 import r5_copy_on_partial, r7_set_default  # partial evaluation of shape functions must not touch the original wrapper and must bind what it is given
+    from .c13 import r5_copy_on_partial, r6_no_alias, r7_set_default  # partial evaluation of shape functions must not touch the original wrapper and must bind what it is given; re-wrapping (domain constructors, rotation matrices) keeps the values already fixed
     r5_copy_on_partial(repo, rep)
+    r6_no_alias(repo, rep)
     r7_set_default(repo, rep)
 
 
